@@ -244,4 +244,34 @@ def infinitePrefix (perms : List (List Nat)) : List Nat := perms.flatten
 def distStream (perms : List (List Nat)) (rank world : Nat) : List Nat :=
   islice (infinitePrefix perms) rank world
 
+/-! ## structure of the code as the translator reports it (compared in Bridge/C13) -/
+
+/-- every call of `build_batch_sampler` in `direct/engine.py`: enclosing method and arguments.  No call
+site passes a volume limit, so `limit = 0` (None) is the only case that reaches the sampler. -/
+def expectedBatchSamplerCalls : List String :=
+  ["predict: (dataset, batch_size=batch_size, sampler_type='sequential', limit_number_of_volumes=None)",
+   "training_loop: (training_datasets, self.cfg.training.batch_size, 'random')",
+   "validation_loop: (curr_validation_dataset, batch_size=self.cfg.validation.batch_size, sampler_type='sequential', limit_number_of_volumes=None)"]
+
+/-- `DistributedSampler`: its methods (no `set_epoch`: one generator, seeded once, runs through all epochs)
+and the body of `_infinite_indices` -/
+def expectedDistStructure : List String :=
+  ["methods: __init__, __iter__, _infinite_indices",
+   "g=torch.Generator()",
+   "g.manual_seed(self._seed)",
+   "while True",
+   "  if self._shuffle",
+   "    yield from torch.randperm(self._size, generator=g)",
+   "  else",
+   "    yield from torch.arange(self._size)"]
+
+/-- `ConcatDatasetBatchSampler`: the member is drawn with probability proportional to its length, then the
+member's own batch generator is advanced -/
+def expectedConcatNext : List String :=
+  ["self.samplers=[DistributedSampler(len(_), shuffle=True, seed=seed) for _ in datasets]",
+   "self.weights=np.asarray([len(_) for _ in datasets])",
+   "self.cumulative_sizes=self.cumsum(datasets)",
+   "iterator_idx=random.choices(range(len(self.weights)), weights=self.weights / self.weights.sum())[0]",
+   "return next(self._batch_samplers[iterator_idx])"]
+
 end DirectVerif.Sampler
